@@ -23,7 +23,8 @@ if [ $need = 1 ]; then
 	(cd "$S" && ./configure >/dev/null 2>&1 && make -j8 -C lib/et >/dev/null 2>&1 && \
 		make -j8 -C lib/ext2fs ext2_err.h crc32c_table.h >/dev/null 2>&1; \
 		make -C lib/support prof_err.h >/dev/null 2>&1; \
-		make -C lib dirpaths.h >/dev/null 2>&1; true)
+		make -C lib dirpaths.h >/dev/null 2>&1; make -C lib/blkid blkid_types.h >/dev/null 2>&1; \
+		make -C lib/uuid uuid_types.h >/dev/null 2>&1; true)
 	rm -rf .gen; mkdir -p .gen
 	V=$(pwd)
 	(cd "$S" && find . -name '*.h' -newer configure -print | tar -c -T - | tar -x -C "$V/.gen")
